@@ -655,9 +655,47 @@ impl PB<'_> {
         }
     }
 
+    /// a 48- or 96-byte atom that is *computed* (a fresh heap atom): two halves concatenated, or a
+    /// slice of a longer constant; the halves come from a valid point about half of the time
+    fn computed_point_blob(&mut self, len: usize) -> u32 {
+        let (g1, g2) = bls_points();
+        let mut b: Vec<u8> = if self.rng.bool() {
+            if len == 48 { self.rng.pick(g1).to_vec() } else { self.rng.pick(g2).to_vec() }
+        } else {
+            self.rng.bytes(len)
+        };
+        if self.rng.chance(1, 3) {
+            let i = self.rng.usize(len);
+            b[i] ^= 1 << self.rng.below(8);
+        }
+        if self.rng.bool() {
+            let k = 1 + self.rng.usize(len - 1);
+            let x = self.atom(&b[..k]);
+            let qx = self.q(x);
+            let y = self.atom(&b[k..]);
+            let qy = self.q(y);
+            self.op1(14, &[qx, qy])
+        } else {
+            let pre = 1 + self.rng.usize(6);
+            let mut long = self.rng.bytes(pre);
+            long.extend_from_slice(&b);
+            long.extend_from_slice(&[7, 7, 7]);
+            let l = self.atom(&long);
+            let ql = self.q(l);
+            let s0 = self.atom(&int_bytes(pre as i128));
+            let qs0 = self.q(s0);
+            let s1 = self.atom(&int_bytes((pre + len) as i128));
+            let qs1 = self.q(s1);
+            self.op1(12, &[ql, qs0, qs1])
+        }
+    }
+
     fn g1_expr(&mut self, d: u32) -> u32 {
         if !self.cfg.has(fam::BLS) {
             return self.leaf(Kind::G1);
+        }
+        if self.rng.chance(1, 8) {
+            return self.computed_point_blob(48);
         }
         match self.rng.below(7) {
             0 => {
@@ -692,6 +730,9 @@ impl PB<'_> {
     fn g2_expr(&mut self, d: u32) -> u32 {
         if !self.cfg.has(fam::BLS) {
             return self.leaf(Kind::G2);
+        }
+        if self.rng.chance(1, 8) {
+            return self.computed_point_blob(96);
         }
         match self.rng.below(6) {
             0 => {
@@ -923,7 +964,12 @@ impl PB<'_> {
             self.expr(Kind::Any, d.min(3))
         };
         self.cfg.families = saved;
-        let placeholder: u64 = (1u64 << 58 >> depth_here.min(24)) + self.guard_atoms.len() as u64;
+        let mut placeholder: u64 = (1u64 << 58 >> depth_here.min(24)) + self.guard_atoms.len() as u64;
+        if ext_v >= 2 && depth_here == 1 && self.rng.chance(1, 4) {
+            // an unknown extension is a no-op that costs what it declares: also declare amounts
+            // around 2^63 and close to 2^64
+            placeholder = *self.rng.pick(&[1u64 << 63, (1u64 << 63) + 12345, (1u64 << 63) - 1, u64::MAX - 100_000, (1u64 << 62) + 7]);
+        }
         let cost_atom = self.atom(&int_bytes(placeholder as i128));
         self.guard_atoms.push((cost_atom, depth_here));
         let qcost = self.q(cost_atom);
